@@ -343,9 +343,24 @@ func posOfCall(fn ast.Node, pred func(string) bool) token.Pos {
 	return p
 }
 
+var lockFiles = []string{"client.go", "mux_broker.go", "grpc_broker.go", "rpc_server.go", "rpc_client.go", "grpc_server.go", "grpc_client.go",
+	"grpc_controller.go", "grpc_stdio.go", "server.go", "stream.go", "process.go", "discover.go",
+	"internal/grpcmux/grpc_server_muxer.go", "internal/grpcmux/grpc_client_muxer.go", "internal/grpcmux/blocked_client_listener.go", "internal/grpcmux/blocked_server_listener.go"}
+
 func main() {
 	repo := flag.String("repo", "/repo", "go-plugin working tree")
+	dumpLocks := flag.Bool("locks", false, "print the lock-discipline table and exit")
 	flag.Parse()
+	if *dumpLocks {
+		la := runLockAnalysis(*repo, lockFiles)
+		for _, r := range la.table() {
+			fmt.Printf("%-22s %-18s %-40s %-5v %s\n", r.strct, r.field, r.fn, r.write, r.guard)
+		}
+		for _, c := range la.closes {
+			fmt.Printf("close %-45s %-40s %-20s %s\n", c.file, c.fn, c.ch, c.guard)
+		}
+		return
+	}
 	var defs []string
 	def := func(name, typ, val, comment string) {
 		defs = append(defs, fmt.Sprintf("(* %s *)\nDefinition %s : %s := %s.", comment, name, typ, val))
@@ -847,6 +862,85 @@ func main() {
 		def("accept_registers_listener_before_knock_goroutine", "bool", coqBool(pListen < pGo), "grpc_broker.go Accept (mux): muxer.Listener(id) precedes `go listenForKnocks`")
 	}
 
+	// ---- lock discipline, close sites, id allocation (C20)
+	{
+		la := runLockAnalysis(*repo, lockFiles)
+		rows := la.table()
+		if len(rows) < 20 {
+			fail("lock analysis: only %d rows (the structs or their mutexes were not recognised)", len(rows))
+		}
+		var b strings.Builder
+		b.WriteString("[\n")
+		for i, r := range rows {
+			g := "GNone"
+			switch {
+			case strings.HasPrefix(r.guard, "lock:"):
+				g = fmt.Sprintf("GLock %q", strings.TrimPrefix(r.guard, "lock:"))
+			case r.guard == "atomic":
+				g = "GAtomic"
+			case r.guard == "once":
+				g = "GOnce"
+			case r.guard == "hb":
+				g = "GHb"
+			}
+			sep := ";"
+			if i == len(rows)-1 {
+				sep = ""
+			}
+			fmt.Fprintf(&b, "  (%q, %q, %q, %s, %s)%s\n", r.strct, r.field, r.fn, coqBool(r.write), g, sep)
+		}
+		b.WriteString("]%string")
+		defs = append(defs, "Inductive guard := GLock (l : string) | GAtomic | GOnce | GHb | GNone.")
+		def("access_table", "list (string * string * string * bool * guard)", b.String(),
+			"every access to a mutable field of a struct that has a mutex, made through a receiver or parameter: (struct, field, function, is-write, what orders it)")
+		var hb []string
+		for k := range hbExceptions {
+			hb = append(hb, k)
+		}
+		sort.Strings(hb)
+		var c strings.Builder
+		c.WriteString("[\n")
+		named := map[string]bool{"GRPCBroker.Close": true, "gRPCBrokerServer.Close": true, "gRPCBrokerClientImpl.Close": true, "RPCServer.done": true}
+		found := 0
+		first := true
+		for _, cs := range la.closes {
+			if !named[cs.fn] {
+				continue
+			}
+			found++
+			g := cs.guard == "once"
+			if cs.fn == "RPCServer.done" {
+				// closed under s.lock after a nil check, then set to nil
+				g = rpcDoneGuarded(la.funcs["RPCServer.done"])
+			}
+			if !first {
+				c.WriteString(";\n")
+			}
+			first = false
+			fmt.Fprintf(&c, "  (%q, %q, %s)", cs.fn, cs.ch, coqBool(g))
+		}
+		c.WriteString("\n]%string")
+		if found != len(named) {
+			fail("close sites: found %d of the %d named shutdown closes", found, len(named))
+		}
+		def("close_sites", "list (string * string * bool)", c.String(), "the close(ch) of every shutdown path that several goroutines can reach: (function, channel, closes-at-most-once guard present)")
+		atomicIDs := true
+		for _, k := range []string{"MuxBroker.NextId", "GRPCBroker.NextId"} {
+			fd := la.funcs[k]
+			ok := false
+			if fd != nil && len(fd.Body.List) == 1 {
+				if rs, isR := fd.Body.List[0].(*ast.ReturnStmt); isR && len(rs.Results) == 1 {
+					ok = strings.HasPrefix(exprString(rs.Results[0]), "atomic.AddUint32(&")
+				}
+			}
+			if fd == nil {
+				fail("%s not found", k)
+			}
+			atomicIDs = atomicIDs && ok
+		}
+		def("nextid_atomic", "bool", coqBool(atomicIDs), "mux_broker.go / grpc_broker.go NextId: the whole body is `return atomic.AddUint32(&m.nextId, 1)`")
+	}
+
 	// ---- output
 	if len(failures) > 0 {
 		for _, f := range failures {
@@ -861,7 +955,7 @@ func main() {
 	// Record must precede its use
 	var recs, rest []string
 	for _, d := range defs {
-		if strings.HasPrefix(d, "Record") {
+		if strings.HasPrefix(d, "Record") || strings.HasPrefix(d, "Inductive") {
 			recs = append(recs, d)
 		} else {
 			rest = append(rest, d)
@@ -875,4 +969,30 @@ func main() {
 		fmt.Println(d)
 		fmt.Println()
 	}
+}
+
+// rpcDoneGuarded: RPCServer.done closes DoneCh inside `if s.DoneCh != nil { close(s.DoneCh); s.DoneCh = nil }` with s.lock held.
+func rpcDoneGuarded(fd *ast.FuncDecl) bool {
+	if fd == nil {
+		return false
+	}
+	locked, ok := false, false
+	for _, st := range fd.Body.List {
+		if es, isE := st.(*ast.ExprStmt); isE && exprString(es.X) == "s.lock.Lock()" {
+			locked = true
+		}
+		if is, isI := st.(*ast.IfStmt); isI && locked && exprString(is.Cond) == "(s.DoneCh!=nil)" {
+			closes, nils := false, false
+			for _, b := range is.Body.List {
+				if es, isE := b.(*ast.ExprStmt); isE && exprString(es.X) == "close(s.DoneCh)" {
+					closes = true
+				}
+				if as, isA := b.(*ast.AssignStmt); isA && len(as.Lhs) == 1 && exprString(as.Lhs[0]) == "s.DoneCh" && exprString(as.Rhs[0]) == "nil" {
+					nils = true
+				}
+			}
+			ok = closes && nils
+		}
+	}
+	return ok
 }
